@@ -92,7 +92,9 @@ func genC04(t *rapid.T, tier string) (*World, any) {
 			sb.WriteString(c)
 		}
 		word := sb.String()
-		word = strings.ReplaceAll(word, "  ", " x")
+		if !chance(t, 30, "double-blank") {
+			word = strings.ReplaceAll(word, "  ", " x")
+		}
 		if strings.HasPrefix(word, "##!") || strings.HasPrefix(word, "'") {
 			word = "x" + word
 		}
